@@ -165,7 +165,10 @@ impl<H: HashChain> LmotsParameter<H> {
 
         for i in *max..self.get_num_winternitz_chains() {
             let (index, shift, mask) = coef[i as usize];
-            let hash_chain_length = ((checksum[index - 32] as u64 >> shift) & mask) as u16;
+            // `index` addresses the digest followed by the checksum bytes
+            let hash_chain_length =
+                ((checksum[index - Self::HASH_FUNCTION_OUTPUT_SIZE as usize] as u64 >> shift)
+                    & mask) as u16;
             total_hash_chain_iterations += hash_chain_length;
         }
 
